@@ -162,6 +162,12 @@ def regex_call(I, how, pattern, s):
             mv.start = 0
     if groups is not None:
         mv.declared_only = True
+    if extra.get('literal') is not None:
+        # the match is an occurrence of this fixed word (R1 geometry plus: the matched text is the word)
+        lit = extra['literal']
+        mv.literal = lit
+        I.p.assume(I.term(mv.end) == I.term(mv.start) + len(lit))
+        I.p.assume(z3.SubString(I.term(s), I.term(mv.start), len(lit)) == z3.StringVal(lit))
     I.p.ghost.setdefault(('env_matches', key), []).append(mv)      # visible to contract clauses as env_matches(key)
     if extra.get('end_anchored'):
         # R2: the pattern text ends in an unescaped '$' (checked separately as a syntactic obligation)
@@ -217,6 +223,8 @@ def match_method(I, m, name, args, kwargs):
     if name == 'span':
         return (m.start, m.end)
     if name == 'group':
+        if (not args or args[0] == 0) and getattr(m, 'literal', None) is not None:
+            return m.literal          # the environment declares the matched text itself (a fixed word)
         if len(args) > 1:
             return tuple(match_group(I, m, a) for a in args)
         return match_group(I, m, args[0] if args else 0)
